@@ -5,8 +5,13 @@ Line protocol for C19 (see `harness/src/bin/c19.rs` for the three kinds of cases
 
 ops   `kind fld` then `lib <slot> <name> <path> <debugName> <debugPath> <id> <code> <arch>`
       `kind raw` then `obj <slot> <name> <path> <debugName> <debugPath> <breakpadId> <codeId> <arch> <dup>`
-      `kind e2e` then `file <i> gen|fix|copy …`, `map <i> <addr> <len> <pgoff>`, `hit <i> <rel> <function>`
-out   `ser <tag> name=… path=… debugName=… debugPath=… breakpadId=… codeId=… arch=…`
+                  or `objk <slot> k:<hex key text>=<null|bad|s:hex> …` (a library object with arbitrary key text)
+      `kind e2e` then `file <i> gen|fix|copy …`, `rec <i> m|h|hz <build id>` (the recording carries a build id for
+                 file `i`: in its MMAP2 records / as header entry with / without the stored length),
+                 `opt relcwd|presym|names <a> <b>`, `dbg <i> same|stale`, `map <i> <addr> <len> <pgoff>`,
+                 `hit <i> <rel> <function>`
+out   `ser <tag> name=… path=… debugName=… debugPath=… breakpadId=… codeId=… arch=…` (e2e: `… id=<typed id>`, the
+      written breakpadId as read by the real `debugid`)
       `rd <json|gz> <debugName>/<id> name=… path=… dpath=… code=… arch=…` | `rd <fmt> err`
       `gz same`, `known <fmt> <tag> found|missing`, `addr <fmt> <tag> <rel> same:<fn>|not-found|nofile`
 
@@ -554,10 +559,23 @@ def judgeE2e (ops impl : List String) : Bool × String :=
           v.startsWith "differs" || v = "not-found") &&
         -- absent files have nothing to be found
         !(e.files.any fun f => !f.present && (words l)[2]? == some (strHex f.path))
-      match e2eProblem, otherProblem with
-      | some p, _ => (false, p)
-      | none, some l => (false, s!"a frame of the profile is answered differently from the direct lookup: {l}")
-      | none, none =>
+      -- (0) the identity a listed library carries is that of the file at its path (C19_convert_keeps_file_identity):
+      -- the written code id is the file's own build id, whatever the recording named
+      let identityProblem := e.files.findSome? fun f =>
+        if !f.present then none else
+        match tagged.find? (fun t => t.1 == strHex f.path) with
+        | none => none
+        | some (_, w) =>
+          let fileCode := showCodeId (f.fileBid.map CodeId.elf)
+          if f.mismatch then
+            some s!"library {asciiStr f.path} is listed although the recording names another build id than the file at that path has ({fileCode})"
+          else if w.code == fileCode then none
+          else some s!"library {asciiStr f.path} is listed with code id {w.code} but the file at that path has {fileCode}"
+      match identityProblem, e2eProblem, otherProblem with
+      | some p, _, _ => (false, p)
+      | none, some p, _ => (false, p)
+      | none, none, some l => (false, s!"a frame of the profile is answered differently from the direct lookup: {l}")
+      | none, none, none =>
         -- (3) field level: known under the recorded identity
         match checkKnownFields wants rds "json", checkKnownFields wants rds "gz" with
         | none, none => (true, "ok")
